@@ -168,3 +168,46 @@ def walk_no_nested(fn):
             if isinstance(c, (ast.FunctionDef, ast.AsyncFunctionDef, ast.ClassDef, ast.Lambda)):
                 continue
             stack.append(c)
+
+
+def raised_classes(exc, fn, module=None, depth=0):
+    """names of the exception classes a `raise <exc>` inside `fn` can raise: a constructor call, a local bound to one (on any path), a conditional expression,
+    a call of a module-level helper that returns one; `<reraise>` for the variable of an enclosing `except ... as e`; `?` when it cannot be told"""
+    if exc is None:
+        return {'<reraise>'}
+    if depth > 4:
+        return {'?'}
+    if isinstance(exc, ast.IfExp):
+        return raised_classes(exc.body, fn, module, depth + 1) | raised_classes(exc.orelse, fn, module, depth + 1)
+    if isinstance(exc, ast.Call):
+        d = dotted(exc.func) or (exc.func.attr if isinstance(exc.func, ast.Attribute) else None)
+        last = (d or '?').split('.')[-1]
+        if last[:1].isupper():
+            return {last}
+        if module is None:
+            m = fn
+            while getattr(m, '_parent', None) is not None:
+                m = m._parent
+            module = m if isinstance(m, ast.Module) else None
+        if module is not None and isinstance(exc.func, ast.Name):
+            for st in module.body:
+                if isinstance(st, ast.FunctionDef) and st.name == last:
+                    out = set()
+                    for r in walk_no_nested(st):
+                        if isinstance(r, ast.Return):
+                            out |= raised_classes(r.value, st, module, depth + 1) if r.value is not None else {'?'}
+                    return out or {'?'}
+        return {'?'}
+    if isinstance(exc, ast.Name):
+        if exc.id[:1].isupper():
+            return {exc.id}
+        out = set()
+        for n in walk_no_nested(fn):
+            if isinstance(n, ast.Assign) and any(isinstance(t, ast.Name) and t.id == exc.id for t in n.targets):
+                out |= raised_classes(n.value, fn, module, depth + 1)
+            elif isinstance(n, ast.ExceptHandler) and n.name == exc.id:
+                out.add('<reraise>')
+        return out or {'?'}
+    if isinstance(exc, ast.Attribute):
+        return {exc.attr} if exc.attr[:1].isupper() else {'?'}
+    return {'?'}
